@@ -389,7 +389,7 @@ func init() {
 	fw.Register(&fw.Property{
 		ID:          "C19",
 		Level:       "exploration",
-		Rule:        "seeded row multisets from a tiny alphabet (ties on first key component, equal keys across chunks, empty key) x key {single, composite in any order, none} x run sizes giving 0/1/2/5/one-per-row spills x removed-column sets (never a key column); two sorters fed identically, through AddRow or (a quarter of the cases) through SortFile; both outputs compared with sort+dedupe of the input minus removed columns; temp dir listed after Close; distinct_nontrivial = distinct (key shape, spill, removal, dups, rows, seed) cases with >=2 rows",
+		Rule:        "seeded row multisets from a tiny alphabet (ties on first key component, equal keys across chunks, empty key) x key {single, composite in any order, none} x run sizes giving 0/1/2/5/one-per-row spills x removed-column sets (never a key column); two sorters fed identically, through AddRow or (a quarter of the cases) through SortFile; in some cases spill-file creation fails for four rows and the caller carries on; both outputs compared with sort+dedupe of the input minus removed columns; temp dir listed after Close; distinct_nontrivial = distinct (key shape, spill, removal, dups, rows, seed) cases with >=2 rows",
 		Assumptions: []string{"removed columns are never key columns", "which duplicate survives is free"},
 		Gen: func(tier string, seed int64) []fw.Case {
 			l := fw.NewCaseList("C19", tier, seed)
